@@ -654,3 +654,67 @@ def run(chk):
     run_f3_f4(chk, P)
     run_f5(chk, P)
     rule_job_setup(chk, P, 'F6', floor=20)
+    rule_vector_rows(chk, P, 'F7')
+
+
+def rule_vector_rows(chk, P, rid='F7'):
+    """F7: each row of the self-test vector tables is one test case: the key, IV, text and tag arrays it names and the description string
+    it announces belong together (same algorithm stem and size token), and a loop over one table indexes only that table"""
+    r = chk.rule(rid, 'each row of a self-test vector table names arrays of ONE test case and the description that goes with them (size tokens '
+                      '128/192/256/224/384/512 and algorithm stem agree), and each announcing loop indexes only the table it iterates over', floor=30)
+    tu = 'x86_64__self_test.c'
+    if tu not in P.facts:
+        chk.broken('self_test.c not built')
+        return
+    SIZE = re.compile(r'(?<![0-9])(128|192|224|256|384|512)(?![0-9])')
+    tabs = [t for t in P.facts[tu]['tables'] if t['name'].endswith('_vectors')]
+    if not tabs:
+        chk.broken('no *_vectors tables in self_test.c')
+        return
+    for t in tabs:
+        for el in t['elems']:
+            e = el['e']
+            if e.get('k') != 'initlist':
+                continue
+            ids = [a['n'] for a in e.get('a', []) if a.get('k') == 'ref' and a.get('g')]
+            strs = [a['v'] for a in e.get('a', []) if a.get('k') == 'str']
+            sizes = set()
+            for n in ids + strs:
+                sizes |= set(SIZE.findall(n))
+            stems = {re.sub(r'_(key|iv|plain_text|cipher_text|message|digest|tag|aad|nonce|text)$', '', n) for n in ids}
+            # the 3DES vectors use three key arrays: accept stems differing only in a trailing key index
+            stems = {re.sub(r'_?k(ey)?[123]$', '', s_) for s_ in stems}
+            key = '%s@%s' % (t['name'], el['loc'].split('/')[-1])
+            # arrays shared between rows (null_iv, sha_message) make the stems differ legitimately: the size tokens decide
+            r.check(len(sizes) <= 1, key, el['loc'],
+                    'row of %s mixes test cases: arrays %s announced as %s (size tokens %s)' % (t['name'], sorted(ids), strs, sorted(sizes)))
+    # loops: the body of a loop bounded by the size of table X indexes no other vector table
+    names = {t['name'] for t in tabs}
+    for f in P.funcs(tu):
+        dom = None
+        for hid, hb in f.blocks.items():
+            t_ = hb.get('term')
+            if not t_ or t_['kind'] != 'ForStmt':
+                continue
+            bound = None
+            for nd in cf.walk(t_.get('cond') or {}):
+                if nd.get('k') == 'int' and 'text' in nd:
+                    for nm in names:
+                        if re.search(r'\b%s\b' % re.escape(nm), nd['text']):
+                            bound = nm
+            if not bound:
+                continue
+            dom = dom or f.dominators()
+            body = [b for b in f.blocks if hid in dom.get(b, ()) and b != hid and hid in f.reachable(b)]
+            used = set()
+            for b in body:
+                for ev in f.blocks[b]['ev']:
+                    exprs = [ev.get(k) for k in ('e', 'rhs', 'val') if ev.get(k)]
+                    if ev['k'] == 'decl':
+                        exprs += [d['init'] for d in ev['d'] if d.get('init') is not None]
+                    for x in exprs:
+                        for nd in cf.walk(x):
+                            if nd.get('k') == 'ref' and nd.get('g') and nd['n'] in names:
+                                used.add(nd['n'])
+            r.check(used <= {bound}, '%s:loop over %s' % (f.name, bound), t_.get('loc') or f.loc,
+                    '%s: the loop over %s also reads %s' % (f.name, bound, sorted(used - {bound})))
